@@ -957,8 +957,7 @@ def _ends(repo, col, R="R-C01-ends"):
 # --------------------------------------------------------------------------------------
 
 
-def _scheme(repo, col):
-    R = "R-C01-scheme"
+def _scheme(repo, col, R="R-C01-scheme"):
     fi = repo.method("Module", "step")
     ex = idxm.expander(repo, fi)
     fn = fi.node
